@@ -156,6 +156,99 @@ def gen_lifetime(tier: str) -> Iterator[dict]:
                    "must_reject": must_reject, "kinds": [], "meta": {}}
 
 
+
+# -- animation start sites ---------------------------------------------------------------------------
+# Every subset of start sites (setup line, two helpers called from setup, a line of the loop body, a helper
+# called from the loop body) x animation kind per site x one / two displays.  Each site animates its own row
+# with a looping animation, so every one of them has per-pass housekeeping of its own.
+A_SITES = ["setup", "helperA", "helperB", "loop", "helperC"]
+A_TEXT = {"scroll": "abcdefghijklmnopqrstuvwxyz", "blink": "blinker"}
+
+
+def gen_anim_sites(tier: str) -> Iterator[dict]:
+    max_size = 4 if tier == "thorough" else 3
+    for size in range(1, max_size + 1):
+        for sites in itertools.combinations(A_SITES, size):
+            for kinds in itertools.product(("scroll", "blink"), repeat=size):
+                for n_lcd in ((1, 2) if size > 1 else (1,)):
+                    defs: List[str] = []
+                    setup = ["lcd0 = LCD(i2c_addr=39, cols=16, rows=4)"] + (["lcd1 = LCD(i2c_addr=38, cols=16, rows=4)"] if n_lcd == 2 else []) + ["n = 0"]
+                    loop = ["n += 1"]
+                    plan = []
+                    for i, (site, kind) in enumerate(zip(sites, kinds)):
+                        lcd = f"lcd{i % n_lcd}"
+                        call = f'{lcd}.animate("{kind}", {i}, "{A_TEXT[kind]}{i}", speed_ms=100, loop=True)'
+                        plan.append({"lcd": i % n_lcd, "row": i, "site": site, "kind": kind})
+                        if site == "setup":
+                            setup.append(call)
+                        elif site in ("helperA", "helperB"):
+                            defs += [f"def start_{site}():", "    " + call]
+                            setup.append(f"start_{site}()")
+                        elif site == "loop":
+                            loop += ["if n == 1:", "    " + call]
+                        else:
+                            defs += ["def start_helperC():", "    " + call]
+                            loop += ["if n == 1:", "    start_helperC()"]
+                    loop += ["mon.write(n)", "sleep(120)"]
+                    src = common.script(setup, loop, prologue=PRO, defs=[])
+                    # helpers are defined after the displays they use (documented style)
+                    src = common.script(setup[: 1 + (n_lcd == 2)] + defs + setup[1 + (n_lcd == 2):], loop, prologue=PRO)
+                    yield {"id": f"A:{'+'.join(sites)}:{'+'.join(kinds)}:{n_lcd}", "space": "A", "src": src, "runs": [{"passes": 8}], "kinds": [], "meta": {}, "plan": plan}
+
+
+def anim_site_monitor(case, dr) -> Optional[str]:
+    """Every started looping animation keeps advancing (its row shows at least two different frames over the
+    passes), and the per-pass housekeeping never runs more often than there are animations."""
+    from rmc.device import unhex_latin1
+
+    plan = case["plan"]
+    frames: Dict[Tuple[int, int], set] = {}
+    ticks: Dict[int, int] = {}
+    for ev in dr.events:
+        if ev.phase < 0:
+            continue
+        if ev.kind == "millis":
+            ticks[ev.phase] = ticks.get(ev.phase, 0) + 1
+        if ev.kind == "lcd_dump":
+            rows = unhex_latin1(ev.args[1]).split("|")
+            for r, text in enumerate(rows):
+                frames.setdefault((int(ev.args[0]), r), set()).add(text)
+    for p, n in ticks.items():
+        if n > len(plan):
+            return f"pass {p}: {n} animation ticks for {len(plan)} animations"
+    for a in plan:
+        seen = frames.get((a["lcd"], a["row"]), set())
+        if len(seen) < 2:
+            return f"the {a['kind']} animation started from {a['site']} on display {a['lcd']} row {a['row']} never advances: frames {sorted(seen)}"
+    return None
+
+
+# -- spellings of the main loop ------------------------------------------------------------------------
+HEADERS = ["while True:", "while (True):", "while(True):", "while True :", "while True:  # main loop", "while ( True ) :", "while  True:", "while True:\t# tab"]
+
+
+def gen_spellings(tier: str) -> Iterator[dict]:
+    """The split must not depend on how the header is spelled or on comment lines inside the body: every header
+    spelling x a comment line at every line index of the body x {column 0, body indentation, deeper}."""
+    bodies = [
+        (["n = 0", 'mon.write("once")'], ["n += 1", "mon.write(n)", "sleep(7)"]),
+        (["n = 0", "led = Led(13)"], ["n += 1", "if n == 2:", "    led.toggle()", "    continue", "mon.write(n)", "led.toggle()"]),
+        (["n = 0", "btn = Button(2)", "led = Led(13)"], ["if btn.is_pressed():", "    led.on()", "else:", "    led.off()", "n += 1", "mon.write(n)"]),
+        (["n = 3"], ["for i in range(2):", "    n += i", "    mon.write(i)", "mon.write(n)", "sleep(3)"]),
+    ]
+    for bi, (setup, loop) in enumerate(bodies):
+        for hi, header in enumerate(HEADERS):
+            cols = (0, 4, 8) if hi in (0, 1) or tier == "thorough" else ()
+            variants = [(None, None)] + [(at, col) for at in range(len(loop) + 1) for col in cols]
+            for at, col in variants:
+                body = list(loop)
+                if at is not None:
+                    if col == 8 and not (at > 0 and body[at - 1].startswith("    ") or at > 0 and body[at - 1].endswith(":")):
+                        continue
+                    body.insert(at, "\x00" + " " * col + "# note")
+                lines = PRO.rstrip("\n").split("\n") + setup + [header] + [ln[1:] if ln.startswith("\x00") else "    " + ln for ln in body]
+                yield {"id": f"Y:{bi}:{hi}:{at}:{col}", "space": "V", "src": "\n".join(lines) + "\n", "runs": [{"passes": 3, "dr": {2: [0, 1, 1, 0, 1]}}], "kinds": [], "meta": {}}
+
 # -- monitors --------------------------------------------------------------------------------------
 OUTPUT_CMDS = ("dw", "aw")
 
@@ -314,12 +407,19 @@ def judge(case, tr, dev_runs, host_runs):
     for dr in dev_runs:
         if not dr.ok:
             return "violation", f"firmware did not run cleanly: {dr.faults[:2]} exit={dr.exit_code}"
+        if case.get("space") == "A":
+            err = anim_site_monitor(case, dr)
+            if err:
+                return "violation", "monitor: " + err
+            continue
         err = config_monitor(case, dr) or housekeeping_monitor(case, dr) or tick_monitor(case, dr)
         if err:
             return "violation", "monitor: " + err
     hr = host_runs[0]
     if hr.error is not None:
         return "skip_host_" + (hr.error_type or "error"), hr.error or ""
+    if case.get("space") == "A":
+        return "match_monitors_only", ""
     kinds = case.get("kinds", [])
     # ultrasonic retry/fallback and LCD cells have their own properties (C15/C17); compare what C05 is about
     host_obs = observe.reduce_host(hr.events)
@@ -337,6 +437,10 @@ def generate(tier: str, only=None) -> Iterator[dict]:
         yield from gen_devices(tier)
     if not only or "V" in only:
         yield from gen_lifetime(tier)
+    if not only or "A" in only:
+        yield from gen_anim_sites(tier)
+    if not only or "Y" in only:
+        yield from gen_spellings(tier)
 
 
 def main(tier: str, seed: int, only=None) -> int:
